@@ -187,8 +187,8 @@ def random_case(args) -> List[Tuple[str, Dict[str, Any], str]]:
     ver = b["ver"]
 
     def wsig(pr):
-        cls = sorted({wclass_f(x[2], lo, hi) for x in exp_edges.get(pr, [])})
-        return {"feature": "weight:" + "+".join(cls), "zero_in_bounds": lo <= 0 <= hi}
+        cls = {wclass_f(x[2], lo, hi) for x in exp_edges.get(pr, [])}
+        return {"feature": "weight:" + C.top_class(cls), "zero_in_bounds": lo <= 0 <= hi}
 
     fails: List[Tuple[str, Dict[str, Any], str]] = []
 
